@@ -99,6 +99,8 @@ def prepare(scratch, units, tier="quick"):
                     code = text[it.attr_end:it.end]   # derives / cfg_attr of the data type are dropped
                     if ex.get("derive"):
                         code = "#[derive(%s)]\n%s" % (ex["derive"], code)
+                for a_, b_ in ex.get("subst", {}).items():
+                    code = code.replace(a_, b_)      # e.g. visibility `pub(super)` -> `pub` (no parent module here)
                 if ex.get("impl"):
                     code = "impl %s {\n%s\n}" % (ex["impl"], code)   # a method: re-wrapped in its impl header
                 parts.append("// extracted verbatim from %s :: %s\n%s\n" % (ex["file"], " :: ".join(ex["item"]), code))
